@@ -66,7 +66,28 @@ def g_len(r: random.Random, p: Profile) -> int:
     return r.choice(EDGE_LENS)
 
 
+_BER_LOOKALIKES: t.List[bytes] = []
+
+
+def _ber_lookalikes() -> t.List[bytes]:
+    """Octet strings that are themselves well-formed encodings (a whole LDAPMessage, a control value, a filter element,
+    an INTEGER, a truncated header): opaque values must stay opaque."""
+    if not _BER_LOOKALIKES:
+        from vf.ref import rfc4511
+
+        _BER_LOOKALIKES.extend([
+            rfc4511.encode(("ExtendedRequest", 1, ("1.2.3", None), ())),
+            rfc4511.encode(("SearchResultDone", 2, ((0, "", "", None),), ())),
+            rfc4511.encode(("UnbindRequest", 3, (), ())),
+            b"\x30\x05\x02\x01\x05\x04\x00", b"\x30\x84\x00\x00\x00\x05\x02\x01\x05\x04\x00", b"\x87\x02cn", b"\xa3\x07\x04\x02cn\x04\x01v", b"\x02\x01\x00", b"\x30\x80", b"\x30\x82",
+            b"\x04\x81", b"\xa0\x00", b"\x01\x01\xff", b"(cn=a)", b"( 1.2.3 NAME 'x' )", b"1.2.840.113556.1.4.319", b"-1", b"0", b"4294967296",
+        ])
+    return _BER_LOOKALIKES
+
+
 def g_bytes(r: random.Random, p: Profile, n: t.Optional[int] = None) -> bytes:
+    if n is None and r.random() < 0.03:
+        return r.choice(_ber_lookalikes())
     if n is None:
         n = g_len(r, p)
     if n == 0:
